@@ -37,6 +37,9 @@ type Node struct {
 	NoHoist bool
 	// Bare: print a kLam without quotes (only when it is a single call).
 	Bare bool
+	// Sp: how a kArg reference is spelled in the funcs file (0 "{2}", 1 "{ 2 }", 2 "{02}", 3 "{\"2\"}", 4 "{+2}"):
+	// all of them are the call's argument 2 (they are group 2 everywhere else in the template language)
+	Sp int `json:",omitempty"`
 	// InBody: a call written in the body of a definition (survives the
 	// substitution into a calling template; for labels only).
 	InBody bool
@@ -130,7 +133,20 @@ func (p *printer) arg(n *Node) {
 			p.sb.WriteString(n.S)
 		}
 	case kGrp, kArg, kElem:
-		p.ref(strconv.Itoa(n.I))
+		num := strconv.Itoa(n.I)
+		if n.K == kArg && n.I >= 0 {
+			switch n.Sp {
+			case 1:
+				num = " " + num + " "
+			case 2:
+				num = "0" + num
+			case 3:
+				num = `"` + num + `"`
+			case 4:
+				num = "+" + num
+			}
+		}
+		p.ref(num)
 	case kKey:
 		p.ref(n.S)
 	case kCall:
